@@ -631,7 +631,7 @@ def suite_powerloss(pid, tier, seed):
     spec = PROPS[pid]
     n = 48 if tier == "quick" else 800
     rng = random.Random(seed * 1000003 + 71)
-    cases = [gen.crash_case(f"w{i}", rng, length=rng.choice([3, 4, 5, 6]), big=0.2) for i in range(n)]
+    cases = [gen.crash_case(f"w{i}", rng, length=rng.choice([3, 4, 5, 6]), big=0.2, sync_only=True) for i in range(n)]
     cases += [c.replace("case corpus_", "case plcorpus_", 1) for c in gen.crash_corpus()] + gen.powerloss_corpus()
     real, model = both_sides(f"powerloss-{tier}-{seed}-{n}", cases, "powerloss-all", extra_env={"HX_SHIM_DATA": "1"})
     R, M = headers_split(real), headers_split(model)
